@@ -567,7 +567,7 @@ func stdDecode(which, in string) (line string, applicable bool) {
 
 func run(c *hx.Ctx) error {
 	res := c.Res
-	res.Rule = "inputs: dictionary (all 128 ASCII bytes + 19 decoder-relevant sequences) alone, followed by every ASCII byte and 17 sampled non-ASCII successors (valid and invalid UTF-8), the same after a plain prefix, plus random valid and random invalid UTF-8 (length < 40, biased to escape-relevant bytes); every input goes through all 11 escaper configurations directly and a sample through 17 template contexts; a case (escaper, input) is non-trivial when the input has a byte outside [0-9A-Za-z]; distinct by (escaper, input); plus URL attributes (href/src/action/srcset, quoted and unquoted) assembled from 1-6 segments alternating literal text and shown values, where ? & = # , space and %XX come from text or from values at every position (random shapes and path+parameters shapes): the real renderer call by call and the real template against the model of the URL state machine, and an oracle through the HTML tokenizer and net/url on every unambiguous query-value / path-segment slot"
+	res.Rule = "inputs: dictionary (all 128 ASCII bytes + 19 decoder-relevant sequences) alone, followed by every ASCII byte and 17 sampled non-ASCII successors (valid and invalid UTF-8), the same after a plain prefix, plus random valid and random invalid UTF-8 (length < 40, biased to escape-relevant bytes); every input goes through all 11 escaper configurations directly and a sample through 17 template contexts; a case (escaper, input) is non-trivial when the input has a byte outside [0-9A-Za-z]; distinct by (escaper, input); plus URL attributes (href/src/action/srcset, quoted and unquoted) assembled from 1-6 segments alternating literal text and shown values, where ? & = # , space and %XX come from text or from values at every position (random shapes and path+parameters shapes): the real renderer call by call and the real template against the model of the URL state machine, and an oracle through the HTML tokenizer and net/url on every unambiguous query-value / path-segment slot; plus whole URL documents from a grammar of URL shapes (href/src/action/srcset with 1-3 candidates and descriptors, quoted and unquoted; scheme/host prefix or a URL-valued base value with its own query; 0-3 path segments, 0-4 parameters with ? & &amp; delimiters, fragment; every component a mix of static text - commas, dots, @ ; + and %41 included - and 0-2 shown values; values built from character-reference look-alikes (&amp; &#38; &copy &lt …), %26 % + # , space = ? / quotes, non-ASCII and invalid UTF-8): the rendered document is tokenized, the attribute split as a browser does (srcset candidates; # ? & =) and every component percent-decoded with net/url, and must be the structure the template spells out with every slot holding the Go string shown; the shapes of the four recorded findings of the URL state machine are not drawn (each is replayed by itself)"
 
 	var inputs []string
 	if c.Replay != "" {
